@@ -462,7 +462,7 @@ func (t *TriDense) InverseTri(a Triangular) error {
 	t.Copy(a)
 	work := getFloat64s(3*n, false)
 	iwork := getInts(n, false)
-	cond := lapack64.Trcon(CondNorm, t.mat, work, iwork)
+	cond := 1 / lapack64.Trcon(CondNorm, t.mat, work, iwork)
 	putFloat64s(work)
 	putInts(iwork)
 	if math.IsInf(cond, 1) {
